@@ -10,7 +10,7 @@ verus! {
 //@ include u02_parse.vt.rs
 
 pub mod parse {
-    pub use super::{Input, ParseResult, ParseError, leb128_u64, take_n, take1};
+    pub use super::{Input, ParseResult, ParseError, leb128_u64, leb128_i64, leb128_u32, nonzero_leb128_u64, take_n, take1, take4, take_rest, length_prefixed_bytes};
     pub use super::leb128;
 }
 impl<E> ParseError<E> { #[verifier::external_body] pub fn to_string(&self) -> String { unimplemented!() } }
